@@ -94,8 +94,23 @@ def curvature_check(out, sig, model, N, k, om, r2_of_t, tol):
 
 def chain_spec(max_dom):
     n = st.one_of(st.integers(2, 50), st.integers(2, 50), st.floats(0.4, 4.0).map(lambda e: int(10 ** e)))
+    # 'typed': how the numeric parameters are passed (python floats / ints, numpy scalars, float chain length) and whether k is
+    # handed over as a strided view of a longer array -- none of this may change a value
     return st.fixed_dictionaries({'model': st.sampled_from(['Gaussian', 'FreelyJointedChain', 'FJC', 'GaussianRing']),
-                                  'N': n, 'len': specs.logfloat(-0.7, 0.7, 5), 'k': k_strategy(max_dom), 'sub_seed': st.integers(0, 2 ** 31 - 1)})
+                                  'N': n, 'len': st.one_of(specs.logfloat(-0.7, 0.7, 5), specs.logfloat(-0.7, 0.7, 5), st.sampled_from([1.0, 2.0])),
+                                  'typed': st.sampled_from(['plain', 'plain', 'int-len', 'np', 'float-N']), 'kview': st.booleans(),
+                                  'k': k_strategy(max_dom), 'sub_seed': st.integers(0, 2 ** 31 - 1)})
+
+
+def typed_params(model, N, ln, typed):
+    """the same numbers in other python / numpy types"""
+    if typed == 'int-len' and float(ln) == int(ln):
+        ln = int(ln)
+    elif typed == 'np':
+        ln, N = np.float64(ln), np.int64(N)
+    elif typed == 'float-N' and model != 'GaussianRing':     # the ring loops over range(length)
+        N = float(N)
+    return N, ln
 
 
 def make_chain(model, N, ln):
@@ -135,6 +150,28 @@ class Chains(Sub):
         with np.errstate(all='ignore'):
             om = np.asarray(om_obj.calculate(k), dtype=float)
         fam = 'FJC' if model in ('FJC', 'FreelyJointedChain') else model
+        # other parameter types / a strided view of k give the bitwise-same result and leave the underlying buffer alone
+        tN, tl = typed_params(model, N, ln, spec.get('typed', 'plain'))
+        if spec.get('kview'):
+            buf = np.empty(2 * len(k))
+            buf[0::2] = k
+            buf[1::2] = -7.0
+            kin = buf[0::2]
+        else:
+            buf, kin = None, k.copy()
+        try:
+            with np.errstate(all='ignore'):
+                om_t = np.asarray(make_chain(model, tN, tl).calculate(kin), dtype=float)
+        except Exception as exc:   # noqa
+            out.fail(sig + fam + '/typed-input-raises', '%s(N=%r, len=%r) on %s k raised %s: %s' % (model, tN, tl, 'a strided view of' if buf is not None else 'contiguous',
+                                                                                                   type(exc).__name__, exc))
+            return out
+        if om_t.shape != om.shape or not np.array_equal(om_t, om, equal_nan=True):
+            out.fail(sig + fam + '/depends-on-argument-type', '%s: parameters passed as %s / k as %s give different values than plain floats on a contiguous array' % (
+                model, spec.get('typed'), 'strided view' if buf is not None else 'contiguous array'))
+        if buf is not None and (not np.array_equal(buf[0::2], k) or np.any(buf[1::2] != -7.0)):
+            out.fail(sig + fam + '/modifies-k', 'calculate(k) wrote into the buffer behind a strided view of k')
+        out.label('typed=' + spec.get('typed', 'plain'), 'k-view' if buf is not None else 'k-contiguous')
         out.label('model=' + model, 'k=' + spec['k']['kind'], 'N>1000' if N > 1000 else ('N>50' if N > 50 else 'N<=50'))
         if k.tobytes() != kb:
             out.fail(sig + fam + '/modifies-k', 'calculate(k) modified its argument')
